@@ -163,16 +163,16 @@ package mcp
 //@   invariant isnil(self.state) || istype(self.state, State)
 //@
 //@ func stdioClientTransport.sendRequest
-//@   trusted[C16,C14]
+//@   trusted[C16,C14,C01]
 //@   modifies *
 //@   ensures[C16] netops == old(netops) + 1
-//@   ensures[C16,C14] ret1 == nil ==> ret != nil
+//@   ensures[C16,C14,C01] ret1 == nil ==> ret != nil
 //@ func stdioClientTransport.sendNotification
-//@   trusted[C16,C14]
+//@   trusted[C16,C14,C01]
 //@   modifies *
 //@   ensures[C16] netops == old(netops) + 1
 //@ func stdioClientTransport.close
-//@   trusted[C16,C14]
+//@   trusted[C16,C14,C01]
 //@   modifies *
 //@   ensures[C16] netops == old(netops)
 //@
@@ -797,7 +797,7 @@ package mcp
 //@   before call handleReadResource#1 assert[C14 same-entry-point-as-the-http-dispatcher] entryOf(request.Method) == 7
 //@   before call handlePing#1 assert[C14 same-entry-point-as-the-http-dispatcher] entryOf(request.Method) == 8
 //@   before call newJSONRPCErrorResponse#2 assert[C14,C03 unserved-method-is-method-not-found] entryOf(request.Method) == 0 && arg1 == ErrCodeMethodNotFound && arg0 == request.ID
-//@   before call newJSONRPCErrorResponse#3 assert[C14,C03 handler-error-is-internal-error-with-the-request-id] err != nil && arg1 == ErrCodeInternal && arg0 == request.ID
+//@   before call newJSONRPCErrorResponse#3 assert[C14,C03,C01 handler-error-is-internal-error-with-the-request-id] err != nil && arg1 == ErrCodeInternal && arg0 == request.ID
 //@   before call newJSONRPCResponse#1 assert[C14,C03,C01 success-envelope-only-without-handler-error-and-with-the-request-id] err == nil && arg0 == request.ID && arg1 == $result
 //@
 //@ func requestHandler.handleRequest
@@ -809,15 +809,15 @@ package mcp
 //@   records lasterr ret1
 //@
 //@ func httpServerHandler.handlePostRequest
-//@   before call respond#1 assert[C14,C15,C03 handler-error-is-internal-error-with-the-request-id] !isnil(lasterr) && arg4 == asany(errorResp) && errorResp.Error.Code == ErrCodeInternal && errorResp.ID == req.ID
+//@   before call respond#1 assert[C14,C15,C03,C01 handler-error-is-internal-error-with-the-request-id] !isnil(lasterr) && arg4 == asany(errorResp) && errorResp.Error.Code == ErrCodeInternal && errorResp.ID == req.ID
 //@   before call respond#2 assert[C14,C03 error-object-passed-through] isnil(lasterr) && arg4 == lastres
 //@   before call respond#3 assert[C14,C15,C03,C01 success-envelope-only-without-handler-error-and-with-the-request-id] isnil(lasterr) && jsonrpcResponse.ID == req.ID && jsonrpcResponse.Result == lastres && jsonrpcResponse.JSONRPC == "2.0"
-//@   before call respond#4 assert[C14,C15,C03 handler-error-is-internal-error-with-the-request-id] !isnil(lasterr) && arg4 == asany(errorResp) && errorResp.Error.Code == ErrCodeInternal && errorResp.ID == req.ID
+//@   before call respond#4 assert[C14,C15,C03,C01 handler-error-is-internal-error-with-the-request-id] !isnil(lasterr) && arg4 == asany(errorResp) && errorResp.Error.Code == ErrCodeInternal && errorResp.ID == req.ID
 //@   before call respond#5 assert[C14,C03 error-object-passed-through] isnil(lasterr) && arg4 == lastres
 //@   before call respond#6 assert[C14,C15,C03,C01 success-envelope-only-without-handler-error-and-with-the-request-id] isnil(lasterr) && jsonrpcResponse.ID == req.ID && jsonrpcResponse.Result == lastres && jsonrpcResponse.JSONRPC == "2.0"
 //@
 //@ func SSEServer.processRequestAsync
-//@   before call handleRequestError#1 assert[C14,C15,C03 handler-error-is-reported-with-the-request-id] !isnil(lasterr) && arg1 == asany(lasterr) && arg2 == request.ID
+//@   before call handleRequestError#1 assert[C14,C15,C03,C01 handler-error-is-reported-with-the-request-id] !isnil(lasterr) && arg1 == asany(lasterr) && arg2 == request.ID
 //@   before call sendSuccessResponse#1 assert[C14,C15,C03,C01 success-envelope-only-without-handler-error-and-with-the-request-id] isnil(lasterr) && arg1 == request.ID && arg2 == lastres
 
 // C14 (clients): the library's clients decode a server answer with the same decoder, applied to
@@ -1135,3 +1135,30 @@ package mcp
 //@ type SSEServer
 //@   lockinv[C05 every-pending-entry-records-its-session] responsesMu: forall k uint64 :: (k in self.responses) ==> istype(self.responses[k], pendingResponse)
 //@
+
+// ---------------------------------------------------------------------------
+// C01 — one call, one answer, its own.
+// Typed handler adapters: the closure they hand out is invoked once per request, possibly
+// concurrently; it must not share a variable with its creator.
+//@
+//@ func NewTypedToolHandler
+//@   sweep[C01] closurecells
+//@ func NewStructuredToolHandler
+//@   sweep[C01] closurecells
+//@
+// Request ids: one key per integer id, whatever Go type carries it (int64 when sent,
+// float64 when decoded from JSON) - up to 2^53, where float64 is exact.
+//@ func requestIDKey
+//@   function
+//@   ensures[C01 an-integral-float-id-is-keyed-by-its-decimal-value] istype(id, float64) && float64(trunc(id.(float64))) == id.(float64) && trunc(id.(float64)) <= 9007199254740992 && trunc(id.(float64)) >= -9007199254740992 ==> result == strconv.FormatInt(trunc(id.(float64)), 10)
+//@   ensures[C01 an-int64-id-is-keyed-by-its-decimal-value] istype(id, int64) ==> result == strconv.FormatInt(id.(int64), 10)
+//@
+// (that trunc(float64(n)) == n for |n| <= 2^53 is IEEE 754 exactness; listed as an assumption)
+//@
+// the answer is recognised by the key of its id; one HTTP exchange per send unless retries are configured
+//@ func streamableHTTPClientTransport.processEventData
+//@   before call handleResponseMessage#1 assert[C01 only-the-message-bearing-the-calls-own-id-is-taken-as-its-answer] ("id" in jsonResp) && requestIDKey(jsonResp["id"]) == requestIDKey(reqID)
+//@ func streamableHTTPClientTransport.send
+//@   ensures[C01 one-exchange-per-call-without-configured-retry] old(t.retryConfig) == nil ==> handles <= old(handles) + 1
+//@ func sseClientTransport.sendRequestInternal
+//@   ensures[C01 one-exchange-per-call] handles <= old(handles) + 1
